@@ -1525,7 +1525,14 @@ BTree_findRangeEnd(BTree *self, PyObject *keyarg, int low, int exclude_equal,
         pchild_is_btree = SameType_Check(self, pchild);
         if (i)
         {
+            /* Own a reference:  the node we take this from is unpinned as
+             * soon as we descend below it, and when it is deactivated then
+             * (a cache sweep inside a key comparison) it lets go of its
+             * children.
+             */
+            Py_XDECREF(deepest_smaller);
             deepest_smaller = self->data[i-1].child;
+            Py_INCREF(deepest_smaller);
             deepest_smaller_is_btree = pchild_is_btree;
         }
 
@@ -1537,7 +1544,11 @@ BTree_findRangeEnd(BTree *self, PyObject *keyarg, int low, int exclude_equal,
             }
             self = BTREE(pchild);
             self_got_rebound = 1;
-            PER_USE_OR_RETURN(self, -1);
+            UNLESS (PER_USE(self))
+            {
+                self_got_rebound = 0;   /* not pinned: nothing to undo */
+                goto Done;
+            }
         }
         else
         {
@@ -1603,6 +1614,7 @@ BTree_findRangeEnd(BTree *self, PyObject *keyarg, int low, int exclude_equal,
         result = 0;     /* simply not found */
 
 Done:
+    Py_XDECREF(deepest_smaller);
     if (self_got_rebound)
     {
         PER_UNUSE(self);
